@@ -25,6 +25,7 @@ type config struct {
 	HonestAny    bool // honest mhg: any non-contradicting value instead of the largest signed height
 	Double       bool // Byzantine may sign two headers in one slot
 	PrecommitMax bool
+	PrecommitMin bool // precommit threshold = the smallest one for which the protocol still promises safety against the Byzantine weight: W + f + 1 - T_prevote
 	// one parameter change on the trunk, applied after the block at height ChangeAt (0 = none)
 	ChangeAt uint32
 	// forks may also start below the change; every branch then applies the same change at the same height
@@ -86,7 +87,23 @@ func total(w []uint64) uint64 {
 	return t
 }
 
-func specOf(w []uint64, pcMax bool) (uint64, uint64, []bftx.ValidatorSpec) {
+// pcMinFor is the smallest precommit threshold with T_prevote + T_precommit - W > f (and inside the accepted range).
+func pcMinFor(w []uint64, byz []int) uint64 {
+	W := total(w)
+	var f uint64
+	for _, b := range byz {
+		if b < len(w) {
+			f += w[b]
+		}
+	}
+	pc := W + f + 1 - (2*W/3 + 1)
+	if pc < W/3+1 {
+		pc = W/3 + 1
+	}
+	return pc
+}
+
+func specOf(w []uint64, pcMax bool, pcMin ...uint64) (uint64, uint64, []bftx.ValidatorSpec) {
 	W := total(w)
 	vs := []bftx.ValidatorSpec{}
 	for i, x := range w {
@@ -97,6 +114,9 @@ func specOf(w []uint64, pcMax bool) (uint64, uint64, []bftx.ValidatorSpec) {
 	pc := 2*W/3 + 1
 	if pcMax {
 		pc = W
+	}
+	if len(pcMin) > 0 && pcMin[0] > 0 {
+		pc = pcMin[0]
 	}
 	return pc, 2*W/3 + 1, vs
 }
@@ -159,7 +179,7 @@ func (s *search) add(parent, gen int, mhg uint32, slot int) (bool, bool) {
 		return false, false
 	}
 	if s.cfg.ChangeAt != 0 && h.H == s.cfg.ChangeAt {
-		pc, cert, vs := specOf(s.cfg.After, s.cfg.PrecommitMax)
+		pc, cert, vs := specOf(s.cfg.After, s.cfg.PrecommitMax, s.cfg.pcMin(s.cfg.After))
 		if s.cfg.AfterCertPlus {
 			cert++ // same validators and vote thresholds, only the certificate threshold moves: still a parameter update
 		}
@@ -340,7 +360,7 @@ func newSearch(cfg config) *search {
 		}
 	}
 	env := bftx.NewEnv(batch)
-	pc, cert, vs := specOf(cfg.Weights, cfg.PrecommitMax)
+	pc, cert, vs := specOf(cfg.Weights, cfg.PrecommitMax, cfg.pcMin(cfg.Weights))
 	st, err := env.Genesis(0, pc, cert, vs)
 	if err != nil {
 		panic(err)
@@ -358,8 +378,15 @@ func newSearch(cfg config) *search {
 	return s
 }
 
+func (c config) pcMin(w []uint64) uint64 {
+	if !c.PrecommitMin {
+		return 0
+	}
+	return pcMinFor(w, c.Byz)
+}
+
 // safe reports whether the protocol itself promises safety for this configuration.
-func safe(w []uint64, byz []int, pcMax bool) bool {
+func safe(w []uint64, byz []int, pcMax bool, pcMin ...uint64) bool {
 	W := total(w)
 	var f uint64
 	for _, b := range byz {
@@ -371,6 +398,9 @@ func safe(w []uint64, byz []int, pcMax bool) bool {
 	pc := pv
 	if pcMax {
 		pc = W
+	}
+	if len(pcMin) > 0 && pcMin[0] > 0 {
+		pc = pcMin[0]
 	}
 	return 3*f < W && f+W < pv+pc
 }
@@ -399,6 +429,9 @@ func configs(thorough bool) []config {
 		config{Name: "n4-byz3-join5-forkbelow-12slots", Weights: eq4, Byz: []int{3}, Slots: 12, MaxLeaves: 2, MaxSkips: 1, ChangeAt: 2, After: eq5, ForkBelowChange: true},
 		config{Name: "n4-byz3-reweight2111-forkbelow-13slots", Weights: eq4, Byz: []int{3}, Slots: 13, MaxLeaves: 2, MaxSkips: 1, ChangeAt: 3, After: []uint64{2, 1, 1, 1}, ForkBelowChange: true},
 		config{Name: "n4-byz3-certonly-forkbelow-13slots", Weights: eq4, Byz: []int{3}, Slots: 13, MaxLeaves: 2, MaxSkips: 1, ChangeAt: 4, After: eq4, AfterCertPlus: true, ForkBelowChange: true},
+		// aggregate weight 5 (2 mod 3) with the smallest precommit threshold that is still safe against one Byzantine validator
+		// (prevote 4, precommit 3): a prevote threshold one unit too low finalizes on both sides of a 2/2 split
+		config{Name: "n5-byz4-pcmin-double-13slots", Weights: eq5, Byz: []int{4}, Slots: 13, MaxLeaves: 2, MaxSkips: 0, PrecommitMin: true, Double: true},
 		config{Name: "n4-byz0-reweight4333-forkbelow-12slots", Weights: eq4, Byz: []int{0}, Slots: 12, MaxLeaves: 2, MaxSkips: 1, ChangeAt: 1, After: []uint64{4, 3, 3, 3}, ForkBelowChange: true},
 	)
 	if thorough {
@@ -411,6 +444,8 @@ func configs(thorough bool) []config {
 			config{Name: "n4-byz0-12slots-3leaves", Weights: eq4, Byz: []int{0}, Slots: 12, MaxLeaves: 3, MaxSkips: 1},
 			config{Name: "n4-byz1-10slots-honestany", Weights: eq4, Byz: []int{1}, Slots: 10, MaxLeaves: 2, MaxSkips: 1, HonestAny: true},
 			config{Name: "n5-byz4-17slots", Weights: eq5, Byz: []int{4}, Slots: 17, MaxLeaves: 2, MaxSkips: 0},
+			config{Name: "n5-byz2-pcmin-double-16slots", Weights: eq5, Byz: []int{2}, Slots: 16, MaxLeaves: 2, MaxSkips: 0, PrecommitMin: true, Double: true},
+			config{Name: "w22211-byz0-pcmin-double-14slots", Weights: []uint64{2, 2, 2, 1, 1}, Byz: []int{0}, Slots: 14, MaxLeaves: 2, MaxSkips: 0, PrecommitMin: true, Double: true},
 			config{Name: "n4-byz0-pcmax-15slots", Weights: eq4, Byz: []int{0}, Slots: 15, MaxLeaves: 2, MaxSkips: 1, PrecommitMax: true},
 			config{Name: "w3221-byz3-15slots", Weights: []uint64{3, 2, 2, 1}, Byz: []int{3}, Slots: 15, MaxLeaves: 2, MaxSkips: 1},
 			config{Name: "n3-f0-12slots-honestany", Weights: []uint64{1, 1, 1}, Byz: nil, Slots: 12, MaxLeaves: 2, MaxSkips: 1, HonestAny: true},
@@ -484,7 +519,7 @@ func main() {
 		if r.Only != "" && r.Only != c.Name {
 			continue
 		}
-		if !safe(c.Weights, c.Byz, c.PrecommitMax) || (c.ChangeAt != 0 && !safe(c.After, c.Byz, c.PrecommitMax)) {
+		if !safe(c.Weights, c.Byz, c.PrecommitMax, c.pcMin(c.Weights)) || (c.ChangeAt != 0 && !safe(c.After, c.Byz, c.PrecommitMax, c.pcMin(c.After))) {
 			panic("unsafe configuration listed: " + c.Name)
 		}
 		nConfigs++
